@@ -88,6 +88,9 @@ def plan_topic(prop, what):
         files, info = c.record("topic", shard=8000)
         n = c.validate("Trace_Topic", files, cfg="Trace_Topic_%s.cfg" % prop, what=what, procs=10)
         c.traces += n
+        # the same strings in the debug profile (debug assertions / overflow checks on: a panic is data)
+        dfiles, dinfo = c.record("topic", name="topic-debug", profile="debug", shard=8000)
+        n += c.validate("Trace_Topic", dfiles, cfg="Trace_Topic_%s.cfg" % prop, what=what + " (debug build)", procs=10)
         c.sample_events(files[0])
         c.sample_events(files[-1], n=2)
         c.extra["exhaustive"] = True
@@ -225,14 +228,18 @@ def plan_c07(c):
     n = gen_replay(c, "cut", "Trace_Front", "Trace_Front_C07.cfg", "C07 every cut of every packet of the bounded domain")
     m, _ = tv(c, "cut", "Trace_Front", "Trace_Front_C07.cfg", "C07 incomplete input / trailing bytes")
     c.traces += m
-    return n + m
+    d, _ = tv(c, "cut", "Trace_Front", "Trace_Front_C07.cfg", "C07 incomplete input / trailing bytes (debug build)", profile="debug")
+    c.traces += d
+    return n + m + d
 
 
 def plan_c06(c):
     mc_poll(c)
     m, _ = tv(c, "dec3", "Trace_Front", "Trace_Front_C06.cfg", "C06 agreement of the three front-ends")
     c.traces += m
-    return m
+    d, _ = tv(c, "dec3", "Trace_Front", "Trace_Front_C06.cfg", "C06 agreement of the three front-ends (debug build)", profile="debug")
+    c.traces += d
+    return m + d
 
 
 def plan_c03(c):
@@ -270,6 +277,8 @@ def plan_c05(c):
     c.extra["gen_streams"] = vlib.count_lines(vec)
     p, files = tv(c, "poll", "Trace_Poll", "Trace_Poll_C05.cfg", "C05 schedule independence / cancellation safety",
                   shard=50000, per_run=True)
+    tv(c, "poll", "Trace_Poll", "Trace_Poll_C05.cfg", "C05 schedule independence / cancellation safety (debug build)",
+       profile="debug", shard=50000, per_run=True)
     runs = 0
     for f in files:
         with open(f) as fh:
@@ -283,6 +292,8 @@ def plan_c08(c):
     mc_poll(c)
     mc_stream(c)
     p, files = tv(c, "stream", "Trace_Stream", "Trace.cfg", "C08 back-to-back framing", shard=20000, per_run=True)
+    tv(c, "stream", "Trace_Stream", "Trace.cfg", "C08 back-to-back framing (debug build)", profile="debug", shard=20000,
+       per_run=True)
     runs = 0
     for f in files:
         with open(f) as fh:
@@ -296,7 +307,10 @@ def plan_c14(c):
     mc_encoder(c)
     m, _ = tv(c, "fault", "Trace_Front", "Trace_Front_C14.cfg", "C14 fault injection at every position", shard=60)
     c.traces += m
-    return m
+    d, _ = tv(c, "fault", "Trace_Front", "Trace_Front_C14.cfg", "C14 fault injection at every position (debug build)",
+              profile="debug", shard=60)
+    c.traces += d
+    return m + d
 
 
 def plan_accept(area, cfg, what, mc=True, gen=None):
@@ -309,7 +323,7 @@ def plan_accept(area, cfg, what, mc=True, gen=None):
         mc_poll(c)
         m, _ = tv(c, area, "Trace_Accept", cfg, what, shard=4000)
         c.traces += m
-        if area == "reenc":
+        if True:
             d, _ = tv(c, area, "Trace_Accept", cfg, what + " (debug build)", shard=4000, profile="debug")
             c.traces += d
             m += d
